@@ -102,7 +102,7 @@ static void random_orthogonal(Rng &rng, int d, Vec &Q){
     }
 }
 
-static Problem make_problem(Rng &rng, bool thorough, int forced_kind = -1){
+static Problem make_problem(Rng &rng, bool thorough, int forced_kind = -1, double max_log_cond = 6.0){
     Problem p;
     int r = rng.range(0, 99);
     p.kind = (forced_kind >= 0) ? forced_kind : (r < 45) ? 0 : (r < 65) ? 1 : (r < 82) ? 2 : 3;
@@ -112,7 +112,7 @@ static Problem make_problem(Rng &rng, bool thorough, int forced_kind = -1){
     p.c.resize(n); p.b.resize(n); p.w.resize(n); p.ph.resize(n);
     for(size_t i=0; i<n; i++){ p.c[i] = rng.uni(-2.0, 2.0); p.b[i] = rng.uni(-2.0, 2.0); p.w[i] = rng.uni(0.2, 3.0); p.ph[i] = rng.uni(0.0, 6.28); }
     if (p.kind == 0){
-        p.cond = std::pow(10.0, rng.uni(0.0, 6.0));
+        p.cond = std::pow(10.0, rng.uni(0.0, max_log_cond));
         double base = std::pow(10.0, rng.uni(-2.0, 1.0));
         Vec Q; random_orthogonal(rng, p.d, Q);
         Vec eig(n);
@@ -203,6 +203,7 @@ struct ModelOut{
     bool converged = false, cap_inside_linesearch = false, more_than_cap = false, nonfinite = false;
     Vec last_accepted; double f_last = 0.0, lambda = 0.0, residual = 0.0;
     bool has_residual = false;
+    double proj_rounding = 0.0;   // max over the trials of |g| * (|z| + |P(z)| + 1): scale of the rounding error of a computed projection, seen through f
     std::vector<Vec> candidates;                               // start and every point returned by the projection
 };
 
@@ -240,6 +241,9 @@ static ModelOut replay_adaptive(std::vector<Event> const &log, Vec const &start,
                 if (log[pos].type != 'P') return fail("expected-projection-call");
                 if (!vec_close(log[pos].in, z, 1e-10)) return fail("projection-argument-not-x-minus-lambda-g");
                 p = log[pos].out; pos++;
+                double ng = 0.0, nz = 0.0, npj = 0.0;
+                for(size_t j=0; j<n; j++){ ng += g[j] * g[j]; nz += z[j] * z[j]; npj += p[j] * p[j]; }
+                m.proj_rounding = std::max(m.proj_rounding, std::sqrt(ng) * (std::sqrt(nz) + std::sqrt(npj) + 1.0));
             }
             if (pos >= log.size()) return fail("log-ends-before-cap-or-convergence");
             if (log[pos].type != 'F') return fail("expected-objective-call");
@@ -256,7 +260,7 @@ static ModelOut replay_adaptive(std::vector<Event> const &log, Vec const &start,
                 lhs -= g[j] * delta; mag += std::fabs(g[j] * delta);
             }
             bool accept = (lhs <= rhs + Maths::num_tol);
-            if (std::fabs(lhs - rhs - Maths::num_tol) <= 1e-13 * (mag + rhs)){
+            if (std::fabs(lhs - rhs - Maths::num_tol) <= 32.0 * std::numeric_limits<double>::epsilon() * (mag + rhs)){
                 // tie at the tolerance of the descent test: follow what the log shows (next event G = accepted)
                 m.ties++;
                 if (pos < log.size()) accept = (log[pos].type == 'G');
@@ -280,7 +284,12 @@ static ModelOut replay_adaptive(std::vector<Event> const &log, Vec const &start,
     }
     m.lambda = lambda;
     m.converged = (residual <= tol);
-    if (pos < log.size()){ m.more_than_cap = (m.trials >= cap && !m.converged); return fail(m.more_than_cap ? "callbacks-after-the-cap" : "callbacks-after-convergence"); }
+    if (pos < log.size()){
+        bool trial_follows = false; // another objective / projection call = another trial step
+        for(size_t k=pos; k<log.size(); k++) if (log[k].type != 'G') trial_follows = true;
+        m.more_than_cap = (m.trials >= cap && !m.converged && trial_follows);
+        return fail(m.more_than_cap ? "trial-steps-after-the-cap" : m.converged ? "callbacks-after-convergence" : "step-accepted-although-descent-test-fails");
+    }
     return m;
 }
 
@@ -394,7 +403,9 @@ static void adaptive_case(CaseCtx &c, Rng &rng){
                     .i("returned_is_trial_point", which).b("returned_is_start", vec_bits_equal(r.x, s.start)).num("f_start", f_start).obj());
         }
         // --- objective value: not above the start, not above what a smaller cap returned ---
-        double slack = (double)(m.accepted + 1) * (Maths::num_tol + 64.0 * eps * (std::fabs(f_start) + std::fabs(f_ret) + 1.0));
+        // an accepted step decreases f by |x+ - x|^2 / (2 lambda) up to num_tol (descent lemma + projection onto a convex set); the computed
+        // projection is exact only up to rounding relative to the size of its argument x - lambda g, which f sees multiplied by |g|
+        double slack = (double)(m.accepted + 1) * (Maths::num_tol + 64.0 * eps * (std::fabs(f_start) + std::fabs(f_ret) + 1.0 + m.proj_rounding));
         if (s.feasible_start && !(f_ret <= f_start + slack))
             viol(site + ":worse-than-start:" + var, J().i("cap", cap).num("f_returned", f_ret).num("f_start", f_start).num("slack", slack).obj());
         // (with an infeasible start the first accepted step may legitimately increase f: only points of the feasible set are compared)
@@ -430,7 +441,7 @@ static void adaptive_case(CaseCtx &c, Rng &rng){
 // constant step-size variant: exactly min(cap, first step k >= 1 with |grad f(x_k)| <= tolerance) updates x <- x - s grad f(x)
 // ------------------------------------------------------------------------------------------------
 static void constant_case(CaseCtx &c, Rng &rng){
-    Problem pb = make_problem(rng, c.thorough, rng.coin(0.6) ? 0 : (rng.coin() ? 2 : 3));
+    Problem pb = make_problem(rng, c.thorough, rng.coin(0.6) ? 0 : (rng.coin() ? 2 : 3), rng.coin(0.8) ? 1.5 : 4.0);
     size_t n = (size_t) pb.d;
     Vec start(n); for(size_t i=0; i<n; i++) start[i] = rng.uni(-3.0, 3.0);
     // Lipschitz estimate of the gradient, used only to choose a step-size class
@@ -491,7 +502,7 @@ static void constant_case(CaseCtx &c, Rng &rng){
         for(size_t k=1; k<log.size(); k++){
             double r = 0.0; for(double v : log[k].out) r += v * v;
             r = std::sqrt(r);
-            if (std::fabs(r - tol) <= 1e-12 * (tol + 1e-300)) tie = true;
+            if (r != tol && std::fabs(r - tol) <= 1e-12 * tol) tie = true; // exact equality is decidable: both sides compute the same bits
         }
         if (tie){ c.count("residual_ties"); c.inconc("tie-at-stationarity-tolerance"); return; }
         if (st.performed_iterations != expect)
